@@ -80,6 +80,10 @@ def build(scn, guide=None, max_steps=150_000, max_time=None):
     if max_time is None:
         max_time = (120.0 + 40.0 * max(lat) * 8 + 3.0 * sum(lat) + 3.0 * sum((scn.get("slow") or {}).values())
                     + 4.0 * sum((scn.get("draws") or {}).get("wblock") or [0]))
+    # idle polling of the read/send threads and of a waiting write() costs about 125 traced lines
+    # per virtual second: the step cap has to grow with the time the scenario plans to wait
+    planned = sum((scn.get("slow") or {}).values()) + sum((scn.get("draws") or {}).get("wblock") or [0])
+    max_steps += int(200 * min(planned, 3000.0))
     k = Kernel(scn["sched"], guide=guide, max_steps=max_steps, max_time=max_time)
     fw = Firmware(k, scn.get("cfg", {}), draws)
     link = Link(k, fw, draws, corrupt={int(a): b for a, b in (scn.get("corrupt") or {}).items()},
